@@ -29,6 +29,8 @@ RULE = ("(1) random workloads (<= 5 jobs, <= 2 in-memory tokens, duplicates, fai
 HANG_KEY = "second-run-hangs:orphan-token-at-capacity"
 PIDFILE_KEY = "second-run-hangs:partial-pid-file"
 HANDLER_KEY = "restart-breaks:process-handler-table-race"
+SPIN_KEY = "second-run-hangs:token-watcher-spins-on-empty-pid-file"
+_WITNESS_OBS = {}  # finding id -> observation of its witness (run in one batch with the generated cases)
 
 
 # ---------------------------------------------------------------------------------------- (1) engine
@@ -153,7 +155,6 @@ def real_cases(ctx, rng):
             if phase == "mid-pidwrite":
                 cands = [c for c in cands if c["dag"] == "chain"]
             picked.append(cands[(ctx.seed * 7 + pi * 3 + rng.randrange(len(cands))) % len(cands)])
-        picked.append(next(c for c in allc if c["phase"] == "before-launch" and c["dag"] == "token-capacity" and c["signal"] == SIGNALS[ctx.seed % 2]))
         fins = [c for c in allc if c["finish_before_restart"]]
         picked.append(fins[rng.randrange(len(fins))])
         allc = picked
@@ -186,6 +187,8 @@ def real_monitor(case, o):
             key = PIDFILE_KEY
         elif handler_race:
             key = HANDLER_KEY
+        elif not raised.strip() and tot and case["phase"] == "mid-pidwrite" and o.get("token_files_at_restart", 0) >= 1:
+            key = SPIN_KEY
         elif not raised.strip() and tot and o.get("token_files_at_restart", 0) >= tot and not o.get("live_at_restart"):
             key = HANG_KEY
         else:
@@ -233,7 +236,11 @@ def real_model_lines(case, o):
             # the (diagnostic) launch log of the first run, else off the task-side log
             launched1 = set((o.get("tap") or {}).get("launched1", [])) | started
             later = [j["x"] for j in case["jobs"] if j["deps"] and j["x"] in launched1]
-            L.append({"op": "ev", "e": ["quiesce", [0]] if later else ["procRun", 0]})
+            root = next(j["x"] for j in case["jobs"] if not j["deps"])
+            if root in o.get("live_at_restart", []):
+                L.append({"op": "ev", "e": ["proc", 0, True]})  # its body ended, the process is still on its way out at the restart
+            else:
+                L.append({"op": "ev", "e": ["quiesce", [0]] if later else ["procRun", 0]})
         L.append({"op": "ev", "e": ["crash"]})
     if case.get("finish_before_restart"):
         L.append({"op": "ev", "e": ["procsOnly"]})
@@ -244,7 +251,11 @@ def real_model_lines(case, o):
 
 def real_part(ctx):
     cases = real_cases(ctx, ctx.rng)
-    outs = run_worker_cases(ctx, "restart", cases, parallel=ctx.scale(8, 14), timeout=3000)
+    wit = [(f["id"], f["witness"]["real"]) for f in common.load_findings(PROP) if "real" in (f.get("witness") or {})]
+    outs = run_worker_cases(ctx, "restart", cases + [w for _, w in wit], parallel=ctx.scale(12, 14), timeout=3000)
+    for (fid, w), o in zip(wit, outs[len(cases):]):
+        _WITNESS_OBS[fid] = o
+    outs = outs[:len(cases)]
     lines, owners = [], []
     errs = 0
     for case, o in zip(cases, outs):
@@ -263,7 +274,7 @@ def real_part(ctx):
         mf = real_monitor(case, o)
         for key, what in mf:
             ctx.monitor_fail(key, what, {"real": case})
-        if any(k.startswith("second-run-hangs") for k, _ in mf):
+        if o.get("rc2") == "timeout" or o.get("final2") is None:
             continue  # nothing to compare: the run has no final result
         ls = real_model_lines(case, o)
         lines += ls
@@ -346,7 +357,11 @@ def run_witness(ctx, finding):
     w = finding.get("witness")
     if not w:
         return
-    for key, what in _replay_case(ctx, w):
+    if "real" in w and finding["id"] in _WITNESS_OBS:
+        fails = real_monitor(w["real"], _WITNESS_OBS[finding["id"]])
+    else:
+        fails = _replay_case(ctx, w)
+    for key, what in fails:
         ctx.monitor_fail(key, f"{what} [witness of {finding['id']}]", w)
 
 
